@@ -620,6 +620,12 @@ class Interp:
                 if tyj.get("k") == "adt":
                     return AdtVal(tyj["path"], 0, [], "adt")
                 return UNIT
+            if v.get("tree"):
+                tv = self.const_tree_val(v["tree"])
+                if tv is not None:
+                    if v["kind"] == "ref_bytes" and tyj.get("k") == "ref":
+                        return Opaque.make("constref", arr=tv)
+                    return tv
         if tyj.get("k") == "adt" and c.get("uneval") is None and "text" in c:
             # unit-like enum constants etc.
             return Top(tyj)
@@ -632,6 +638,40 @@ class Interp:
                 if pv is not None:
                     return pv
         return Top(tyj)
+
+    def const_tree_val(self, t):
+        """value of a constant decoded by the driver through its layout (ints, floats, tuples, structs, arrays, thin refs)"""
+        k = t.get("k")
+        if k == "int":
+            it = ty_of_json(t["ty"])
+            if it is None:
+                return None
+            x = int(t["bits"], 16)
+            if it.signed and x >= (1 << (it.bits - 1)):
+                x -= 1 << it.bits
+            return IntVal.const(it, x)
+        if k == "float":
+            bits = t["ty"]["bits"]
+            fv = _f64(int(t["bits"], 16), bits)
+            return FloatVal(bits, const=fv, term=("const", repr(fv)))
+        if k in ("tuple", "struct"):
+            fs = [self.const_tree_val(x) for x in t["fields"]]
+            if any(f is None for f in fs):
+                return None
+            if k == "tuple":
+                return TupleVal(fs) if fs else UNIT
+            adt = self.prog.adts.get(t["path"])
+            vn = adt["variants"][0]["name"] if adt else None
+            return AdtVal(t["path"], 0, fs, "adt", vn)
+        if k == "array":
+            es = [self.const_tree_val(x) for x in t["elems"]]
+            if any(e is None for e in es):
+                return None
+            return ArrayVal(es, len(es), t.get("elem"))
+        if k == "ref":
+            inner = self.const_tree_val(t["to"])
+            return None if inner is None else Opaque.make("constref", arr=inner)
+        return None
 
     def eval_promoted(self, fnpath, idx):
         """value of a promoted constant whose bytes could not be decoded: evaluate its straight-line MIR body.
@@ -709,6 +749,10 @@ class Interp:
             fs = [self.materialise_const(st, f) for f in v.fields]
             if any(a is not b for a, b in zip(fs, v.fields)):
                 return TupleVal(fs)
+        elif isinstance(v, ArrayVal) and v.elems:
+            es = [self.materialise_const(st, f) for f in v.elems]
+            if any(a is not b for a, b in zip(es, v.elems)):
+                return ArrayVal(es, len(es), v.elem_ty)
         return v
 
     def const_from_fact(self, pc):
@@ -731,7 +775,7 @@ class Interp:
                 v = v.fresh()
             if isinstance(v, Opaque) and v.kind == "constref":
                 return self.materialise_const(st, v)
-            if isinstance(v, (AdtVal, TupleVal)):
+            if isinstance(v, (AdtVal, TupleVal, ArrayVal)):
                 return self.materialise_const(st, v)
             if isinstance(v, Opaque) and v.kind == "constrefref":
                 loc = st.new_heap(v.get("arr"))
